@@ -15,7 +15,7 @@ static inline void iora_rbmap_havoc_other(iora_rbmap *m)
   IORA_ASSUME(o->data.lo <= o->data.hi && o->hasData == (o->data.hi > o->data.lo));
 }
 static inline void iora_pcmap_havoc_other(iora_pcmap *m) { SyncConnectOp *o = m->other; o->done = false; o->abandoned = nondet_bool(); o->cv.n_one = 0; }
-static inline void iora_obmap_havoc_other(iora_obmap *m) { m->other.n = nondet_size_t(); IORA_ASSUME(m->other.n <= ((size_t)1 << 40)); m->other.w.id = nondet_u64(); m->other.w.cb_set = nondet_bool(); }
+static inline void iora_obmap_havoc_other(iora_obmap *m) { m->other.n = nondet_size_t(); IORA_ASSUME(m->other.n <= ((size_t)1 << 40)); m->other.w.id = nondet_u64(); m->other.w.cb_set = nondet_bool(); m->other.w.seq = nondet_size_t(); m->other.w2.id = nondet_u64(); m->other.w2.cb_set = nondet_bool(); m->other.w2.seq = nondet_size_t(); IORA_ASSUME(OBS_SORTED(m->other)); }
 static inline void iora_o2smap_havoc_other(iora_o2smap *m) { m->other = nondet_u64(); }
 static inline void iora_udmap_havoc_other(iora_udmap *m) { m->other.data = nondet_u64(); m->other.cleanup = nondet_bool(); }
 static inline size_t iora_rbmap_size(const iora_rbmap *m) { IORA_GMAP1_GUARDED(m); size_t n = nondet_size_t(); IORA_ASSUME(n >= (m->present ? 1 : 0)); return n; }
@@ -90,7 +90,8 @@ static inline void iora_call_Observer(Impl *im, const iora_obsvec *v, size_t i, 
 {
   (void)reason;
   IORA_ASSERT(LOCKFREE(im), "CB2 observer invoked with no Transport lock held (HR-7)");
-  IORA_ASSERT(i < v->n && (i != GI || v->w.cb_set), "CB1 an empty observer callback is never invoked");
+  IORA_ASSERT(i < v->n && (i != GI || v->w.cb_set) && (i != GJ || v->w2.cb_set), "CB1 an empty observer callback is never invoked");
+  IORA_ASSERT(!(i == GJ && GI < v->n && v->w.cb_set) || G_w_calls == 1, "ORD4 for ANY two registered observers: the one registered earlier (lower vector index; the vector is sorted by registration, OBS_SORTED) has already run when the later one runs");
   IORA_ASSERT(G_global_calls == (G_global_registered ? 1u : 0u), "ORD1 observers run after the global close callback");
   IORA_ASSERT(G_cleanup_calls == 0, "ORD3 observers run before the user-data cleanup");
   IORA_ASSERT(i >= G_obs_next, "ORD2 observers run in vector (registration) order, each at most once");
